@@ -135,5 +135,19 @@ pub fn warm() -> ! {
     let out = run_corpus(&rc, &cfg, &layouts, "b", &[], None);
     println!("warm: built {} layouts in {:.1}s", layouts.len(), out.build_s);
     crate::vprops::warm(&rc);
+    // nightly target directory used by C18's expansion scan
+    let dir = rc.work.join("r-warm");
+    crate::emit::write_v_crate_n(
+        &dir,
+        "rcrate_c18",
+        &[("d0".to_string(), "//! generated module\n#![allow(unused_imports)]\nuse arbitrary_int::*;\n/// a bitfield\n#[bitbybit::bitfield(u8)]\npub struct S {\n    /// a field\n    #[bits(0..=3, rw)]\n    a: u4,\n}\n".to_string())],
+        true,
+        true,
+        1,
+    );
+    match crate::c18::expand_text(&dir, "rcrate_c18") {
+        Ok(t) => println!("warm: nightly expansion works ({} bytes)", t.len()),
+        Err(e) => println!("warm: nightly expansion failed: {}", e),
+    }
     std::process::exit(0);
 }
